@@ -112,4 +112,4 @@ class CallStack:
 
     def unwind_loops(self) -> None:
         while isinstance(self._top, LoopFrame):
-            self._top = self.parent
+            self._top = self._top.parent
